@@ -1006,3 +1006,353 @@ def _mem_take(m, q, args, callee):
     old = m.load(args[0])
     if isinstance(old, VecObj): m.store(args[0], VecObj([])); return old
     raise Unsupported('mem::take')
+
+
+# ---------------------------------------------------------------------------------------------- extra std models
+# (not used by the pinned tree; present so that plausible source changes stay within the executor's reach)
+def _opt_d(o):
+    return o.d if not isinstance(o.d, int) else z3.BitVecVal(o.d, 64)
+
+
+@_m(PATH_MODELS, ('Option', 'or_else'))
+def _or_else(m, q, args, callee):
+    o = args[0]
+    if discr_is(m, o, 1): return o
+    return m.call_value(args[1], [])
+
+
+@_m(PATH_MODELS, ('Option', 'or'))
+def _or(m, q, args, callee):
+    o = args[0]
+    if discr_is(m, o, 1): return o
+    return args[1]
+
+
+@_m(PATH_MODELS, ('Option', 'and_then'))
+def _and_then(m, q, args, callee):
+    o = args[0]
+    if discr_is(m, o, 1): return m.call_value(args[1], [o.p[1][0]])
+    return none()
+
+
+@_m(PATH_MODELS, ('Option', 'map_or'))
+def _map_or(m, q, args, callee):
+    o = args[0]
+    if discr_is(m, o, 1): return m.call_value(args[2], [o.p[1][0]])
+    return args[1]
+
+
+@_m(PATH_MODELS, ('Option', 'map_or_else'))
+def _map_or_else(m, q, args, callee):
+    o = args[0]
+    if discr_is(m, o, 1): return m.call_value(args[2], [o.p[1][0]])
+    return m.call_value(args[1], [])
+
+
+@_m(PATH_MODELS, ('Option', 'unwrap_or_else'))
+def _unwrap_or_else(m, q, args, callee):
+    o = args[0]
+    if discr_is(m, o, 1): return o.p[1][0]
+    return m.call_value(args[1], [])
+
+
+@_m(PATH_MODELS, ('Option', 'filter'))
+def _opt_filter(m, q, args, callee):
+    o = args[0]
+    if discr_is(m, o, 1):
+        keep = m.call_value(args[1], [m.alloc(o.p[1][0])])
+        return o if m.branch(keep.t) else none()
+    return none()
+
+
+@_m(PATH_MODELS, ('Option', 'is_none_or'))
+def _is_none_or(m, q, args, callee):
+    o = args[0]
+    if discr_is(m, o, 1): return m.call_value(args[1], [o.p[1][0]])
+    return mk_bool(True)
+
+
+@_m(PATH_MODELS, ('Option', 'replace'), ('Option', 'insert'))
+def _opt_replace(m, q, args, callee):
+    old = m.load(args[0]); m.store(args[0], some(args[1]))
+    if callee.endswith('insert'): return opt_payload_ref(args[0])
+    return old
+
+
+def _opt_cmp_terms(m, a, b):
+    """(lt, eq) for Option<scalar> with None < Some(_)"""
+    a = deref_all(m, a); b = deref_all(m, b)
+    da, db = _opt_d(a), _opt_d(b)
+    pa = a.p.get(1, [None])[0]; pb = b.p.get(1, [None])[0]
+    if pa is not None and pb is not None and isinstance(pa, Sc) and isinstance(pb, Sc):
+        if pa.ty in ('f32', 'f64'):
+            ilt, ieq = z3.fpLT(pa.t, pb.t), z3.fpEQ(pa.t, pb.t)
+        else:
+            ilt, ieq = m.binop('Lt', pa, pb).t, pa.t == pb.t
+    elif pa is None or pb is None:
+        ilt, ieq = z3.BoolVal(False), z3.BoolVal(True)
+    else:
+        raise Unsupported('Option comparison of non-scalar payloads')
+    both = z3.And(da == 1, db == 1)
+    lt = z3.Or(z3.And(da == 0, db == 1), z3.And(both, ilt))
+    eq = z3.Or(z3.And(da == 0, db == 0), z3.And(both, ieq))
+    return lt, eq
+
+
+def _opt_partial(op):
+    def h(m, q, args, callee):
+        a = deref_all(m, args[0])
+        if not (isinstance(a, En) and a.name == 'Option'): return NotImplemented
+        lt, eq = _opt_cmp_terms(m, args[0], args[1])
+        gt = z3.And(z3.Not(lt), z3.Not(eq))
+        # NaN payloads: all comparisons false except ne; valid configurations have none
+        return Sc('bool', {'lt': lt, 'le': z3.Or(lt, eq), 'gt': gt, 'ge': z3.Or(gt, eq)}[op])
+    return h
+
+
+for _op in ('lt', 'le', 'gt', 'ge'):
+    _prev = TRAIT_MODELS.get(('PartialOrd', _op))
+    def _mk(op, prev):
+        oh = _opt_partial(op)
+        def h(m, q, args, callee):
+            r = oh(m, q, args, callee)
+            if r is not NotImplemented: return r
+            return prev(m, q, args, callee) if prev else NotImplemented
+        return h
+    TRAIT_MODELS[('PartialOrd', _op)] = _mk(_op, _prev)
+
+
+# ---- more iterator adaptors / consumers
+@_m(TRAIT_MODELS, ('Iterator', 'any'), ('Iterator', 'all'))
+def _any_all(m, q, args, callee):
+    it = get_iter(m, args[0]); is_any = callee.endswith('any')
+    f = args[1]; fref = m.alloc(f) if not isinstance(f, Ref) else f
+    while True:
+        v = iter_next(m, it)
+        if v is None: return mk_bool(not is_any)
+        r = m.call_value(fref, [v])
+        if m.branch(r.t) == is_any: return mk_bool(is_any)
+
+
+@_m(TRAIT_MODELS, ('Iterator', 'fold'))
+def _fold(m, q, args, callee):
+    acc = args[1]; f = args[2]; fref = m.alloc(f) if not isinstance(f, Ref) else f
+    for v in drain(m, get_iter(m, args[0])):
+        acc = m.call_value(fref, [acc, v])
+    return acc
+
+
+@_m(TRAIT_MODELS, ('Iterator', 'count'))
+def _count(m, q, args, callee):
+    return usize(len(drain(m, get_iter(m, args[0]))))
+
+
+@_m(TRAIT_MODELS, ('Iterator', 'last'))
+def _it_last(m, q, args, callee):
+    xs = drain(m, get_iter(m, args[0]))
+    return some(xs[-1]) if xs else none()
+
+
+@_m(TRAIT_MODELS, ('Iterator', 'find'), ('Iterator', 'position'))
+def _find(m, q, args, callee):
+    it = get_iter(m, args[0]); f = args[1]; fref = m.alloc(f) if not isinstance(f, Ref) else f
+    pos = callee.endswith('position'); i = 0
+    while True:
+        v = iter_next(m, it)
+        if v is None: return none()
+        r = m.call_value(fref, [v if pos else m.alloc(v)])
+        if m.branch(r.t): return some(usize(i) if pos else v)
+        i += 1
+
+
+@_m(TRAIT_MODELS, ('Iterator', 'filter'))
+def _it_filter(m, q, args, callee):
+    f = args[1]; fref = m.alloc(f) if not isinstance(f, Ref) else f
+    out = []
+    for v in drain(m, get_iter(m, args[0])):
+        if m.branch(m.call_value(fref, [m.alloc(v)]).t): out.append(v)
+    return Opaque('iter_owned', items=out, idx=0)
+
+
+@_m(TRAIT_MODELS, ('Iterator', 'rev'))
+def _rev(m, q, args, callee):
+    return Opaque('iter_owned', items=list(reversed(drain(m, get_iter(m, args[0])))), idx=0)
+
+
+@_m(TRAIT_MODELS, ('Iterator', 'skip'), ('Iterator', 'take'))
+def _skip_take(m, q, args, callee):
+    xs = drain(m, get_iter(m, args[0])); n = concrete(args[1].t)
+    if n is None: raise Unsupported('symbolic skip/take')
+    return Opaque('iter_owned', items=(xs[n:] if callee.endswith('skip') else xs[:n]), idx=0)
+
+
+@_m(TRAIT_MODELS, ('Iterator', 'zip'))
+def _zip(m, q, args, callee):
+    a = drain(m, get_iter(m, args[0])); b = drain(m, make_iter(m, args[1]))
+    return Opaque('iter_owned', items=[Agg(None, [x, y]) for x, y in zip(a, b)], idx=0)
+
+
+@_m(TRAIT_MODELS, ('Iterator', 'sum'))
+def _sum(m, q, args, callee):
+    xs = drain(m, get_iter(m, args[0]))
+    if not xs: raise Unsupported('sum of empty iterator (type unknown)')
+    acc = deref_all(m, xs[0])
+    for x in xs[1:]: acc = m.binop('Add', acc, deref_all(m, x))
+    return acc
+
+
+@_m(TRAIT_MODELS, ('Iterator', 'for_each'))
+def _for_each(m, q, args, callee):
+    f = args[1]; fref = m.alloc(f) if not isinstance(f, Ref) else f
+    for v in drain(m, get_iter(m, args[0])): m.call_value(fref, [v])
+    return UNIT
+
+
+@_m(PATH_MODELS, ('slice', 'contains'))
+def _contains(m, q, args, callee):
+    items, ref = seq_of(m, args[0])
+    cs = [eq_values(m, x, args[1]) for x in items]
+    return Sc('bool', z3.Or(cs) if cs else z3.BoolVal(False))
+
+
+@_m(PATH_MODELS, ('Vec', 'clear'))
+def _clear(m, q, args, callee):
+    m.load(args[0]).items[:] = []; return UNIT
+
+
+@_m(PATH_MODELS, ('Vec', 'pop'))
+def _pop(m, q, args, callee):
+    items = m.load(args[0]).items
+    return some(items.pop()) if items else none()
+
+
+@_m(PATH_MODELS, ('Vec', 'insert'))
+def _vinsert(m, q, args, callee):
+    i = concrete(args[1].t)
+    if i is None: raise Unsupported('symbolic Vec::insert index')
+    m.load(args[0]).items.insert(i, args[2]); return UNIT
+
+
+@_m(PATH_MODELS, ('Vec', 'truncate'))
+def _truncate(m, q, args, callee):
+    n = concrete(args[1].t)
+    if n is None: raise Unsupported('symbolic truncate')
+    del m.load(args[0]).items[n:]; return UNIT
+
+
+# ---- integer / float helpers
+def _int_method(name):
+    def h(m, q, args, callee):
+        a = args[0]
+        if not (isinstance(a, Sc) and a.ty in INT_BITS): return NotImplemented
+        b = args[1] if len(args) > 1 else None
+        ty = a.ty; bits = INT_BITS[ty]; sg = is_signed(ty)
+        if name in ('wrapping_add', 'wrapping_sub', 'wrapping_mul'):
+            return m.binop({'wrapping_add': 'Add', 'wrapping_sub': 'Sub', 'wrapping_mul': 'Mul'}[name], a, b)
+        if name in ('checked_add', 'checked_sub', 'checked_mul', 'saturating_add', 'saturating_sub', 'overflowing_add', 'overflowing_sub'):
+            op = {'add': 'AddWithOverflow', 'sub': 'SubWithOverflow', 'mul': 'MulWithOverflow'}[name.split('_')[1]]
+            r = m.binop(op, a, b); val, ovf = r.f[0].t, r.f[1].t
+            if name.startswith('checked'):
+                return En('Option', z3.If(ovf, z3.BitVecVal(0, 64), z3.BitVecVal(1, 64)), {0: [], 1: [Sc(ty, val)]})
+            if name.startswith('overflowing'): return r
+            if sg:
+                mx = z3.BitVecVal((1 << (bits - 1)) - 1, bits); mn = z3.BitVecVal(-(1 << (bits - 1)), bits)
+                sat = z3.If(b.t < 0, mn, mx) if name.endswith('add') else z3.If(b.t < 0, mx, mn)
+            else:
+                sat = z3.BitVecVal((1 << bits) - 1, bits) if name.endswith('add') else z3.BitVecVal(0, bits)
+            return Sc(ty, z3.If(ovf, sat, val))
+        if name == 'abs': return Sc(ty, z3.If(a.t < 0, -a.t, a.t))
+        if name == 'min': return Sc(ty, z3.If((a.t <= b.t) if sg else z3.ULE(a.t, b.t), a.t, b.t))
+        if name == 'max': return Sc(ty, z3.If((a.t >= b.t) if sg else z3.UGE(a.t, b.t), a.t, b.t))
+        return NotImplemented
+    return h
+
+
+for _t in INT_BITS:
+    for _n in ('wrapping_add', 'wrapping_sub', 'wrapping_mul', 'checked_add', 'checked_sub', 'checked_mul', 'saturating_add', 'saturating_sub',
+               'overflowing_add', 'overflowing_sub', 'abs', 'min', 'max'):
+        PATH_MODELS[(_t, _n)] = _int_method(_n)
+
+
+@_m(PATH_MODELS, ('f32', 'ceil'))
+def _ceil(m, q, args, callee):
+    return Sc('f32', z3.fpRoundToIntegral(z3.RTP(), args[0].t))
+
+
+@_m(PATH_MODELS, ('f32', 'trunc'))
+def _trunc(m, q, args, callee):
+    return Sc('f32', z3.fpRoundToIntegral(RTZ, args[0].t))
+
+
+@_m(PATH_MODELS, ('f32', 'fract'))
+def _fract(m, q, args, callee):
+    return Sc('f32', z3.fpSub(RNE, args[0].t, z3.fpRoundToIntegral(RTZ, args[0].t)))
+
+
+@_m(PATH_MODELS, ('f32', 'mul_add'))
+def _mul_add(m, q, args, callee):
+    return Sc('f32', z3.fpFMA(RNE, args[0].t, args[1].t, args[2].t))
+
+
+@_m(PATH_MODELS, ('f32', 'signum'))
+def _signum(m, q, args, callee):
+    x = args[0].t
+    return Sc('f32', z3.If(z3.fpIsNaN(x), x, z3.If(z3.fpIsNegative(x), z3.FPVal(-1.0, F32), z3.FPVal(1.0, F32))))
+
+
+@_m(PATH_MODELS, ('f32', 'rem_euclid'))
+def _rem_euclid(m, q, args, callee):
+    r = m.fmod(args[0].t, args[1].t)
+    return Sc('f32', z3.If(z3.fpLT(r, z3.FPVal(0.0, F32)), z3.fpAdd(RNE, r, z3.fpAbs(args[1].t)), r))
+
+
+@_m(PATH_MODELS, ('f32', 'to_bits'))
+def _to_bits(m, q, args, callee):
+    return m.cast(args[0], 'u32', 'Transmute')
+
+
+@_m(PATH_MODELS, ('f32', 'from_bits'))
+def _from_bits(m, q, args, callee):
+    return Sc('f32', z3.fpBVToFP(args[0].t, F32))
+
+
+@_m(PATH_MODELS, ('f32', 'copysign'))
+def _copysign(m, q, args, callee):
+    x, y = args[0].t, args[1].t
+    return Sc('f32', z3.If(z3.fpIsNegative(y), z3.fpNeg(z3.fpAbs(x)), z3.fpAbs(x)))
+
+
+@_m(PATH_MODELS, ('f32', 'recip'))
+def _recip(m, q, args, callee):
+    return Sc('f32', z3.fpDiv(RNE, z3.FPVal(1.0, F32), args[0].t))
+
+
+@_m(PATH_MODELS, ('Duration', 'is_zero'))
+def _dur_is_zero(m, q, args, callee):
+    return Sc('bool', dur_nanos(m, args[0]) == 0)
+
+
+@_m(PATH_MODELS, ('Duration', 'saturating_sub'), ('Duration', 'checked_add'), ('Duration', 'saturating_add'))
+def _dur_misc(m, q, args, callee):
+    a, b = dur_nanos(m, args[0]), dur_nanos(m, args[1])
+    if callee.endswith('saturating_sub'): return mk_duration(z3.If(z3.ULT(a, b), z3.BitVecVal(0, 128), a - b))
+    s = a + b; ovf = z3.UGT(s, z3.BitVecVal(DUR_MAX, 128))
+    if callee.endswith('checked_add'):
+        return En('Option', z3.If(ovf, z3.BitVecVal(0, 64), z3.BitVecVal(1, 64)), {0: [], 1: [mk_duration(s)]})
+    return mk_duration(z3.If(ovf, z3.BitVecVal(DUR_MAX, 128), s))
+
+
+@_m(TRAIT_MODELS, ('Add', 'add'), ('Sub', 'sub'))
+def _dur_addsub(m, q, args, callee):
+    a, b = deref_all(m, args[0]), deref_all(m, args[1])
+    if isinstance(a, Agg) and a.name == 'Duration':
+        x, y = a.f[0].t, b.f[0].t
+        if callee.endswith('add'):
+            s = x + y
+            if m.branch(z3.UGT(s, z3.BitVecVal(DUR_MAX, 128))): raise Panic('overflow when adding durations')
+            return mk_duration(s)
+        if m.branch(z3.ULT(x, y)): raise Panic('overflow when subtracting durations')
+        return mk_duration(x - y)
+    if isinstance(a, Sc) and isinstance(b, Sc):
+        return m.binop('Add' if callee.endswith('add') else 'Sub', a, b)
+    return NotImplemented
